@@ -2,7 +2,7 @@
    value (a NumberExpr tree) is replaced by a copy with fresh tokens, once re-attached to the root's
    store (well-formed result) and once left in a foreign store (result is not WF). *)
 From AB Require Import Desc Generated GeneratedWf Tree TreeDefs TreeProofs TreeWF TreeWFProofs TreeRun TreeFacts.
-From AB Require Import TreeEdit TreeEditProofs TreeEditProofs2 TreeEditProofs3 TreeEditProofs4 TreeEditProofs5.
+From AB Require Import TreeEdit TreeEditProofs TreeEditProofs2 TreeEditProofs3 TreeEditProofs4 TreeEditProofs5 TreeEditProofs6.
 From Coq Require Import ZArith String List Bool.
 Import ListNotations.
 Local Open Scope string_scope.
@@ -142,13 +142,13 @@ Lemma ex_opt_hyps :
      | None => False end.
 Proof. vm_compute. auto 20. Qed.
 
-(* the two edits as a history in the sense of TreeEditProofs5.edits2 *)
+(* the two edits as a history in the sense of TreeEditProofs6.edits2 *)
 Lemma ex_opt_history : exists r2, edits2 all_classes ex_open_num r2
   /\ length (node_toks r2) = length (node_toks ex_open_num) /\ leaves r2 <> leaves ex_open_num.
 Proof.
   eexists. split.
   - eapply edits2_cons.
-    + eapply (edit2_remove all_classes ex_open_num [] "_inline_comment"). vm_compute. reflexivity.
+    + eapply (edit2_remove all_classes ex_open_num [] "_inline_comment"); vm_compute; reflexivity.
     + eapply edits2_cons; [|apply edits2_nil].
       eapply (edit2_create all_classes _ [] "_booking" ex_opt_seps ex_booking).
       * split; [apply hwf_b_sound; vm_compute; reflexivity|]. split; vm_compute; reflexivity.
@@ -158,3 +158,19 @@ Proof.
       * vm_compute. reflexivity.
   - split; [vm_compute; reflexivity|]. vm_compute. discriminate.
 Qed.
+
+(* the regap case on a dump of the real posting `    Assets:Cash 10 CAD @ 5 USD;c`: price.currency = None. The currency was
+   the last thing of the UnitPrice and touches the comment: the blank before it stays, outside the UnitPrice (opt_out),
+   as a gap of the Posting; the result `... @ 5 ;c` is HWF *)
+Definition ex_regap_posting : node :=
+  (Tree "Posting" 0 [(mktk 1 "INDENT" "    "); (mktk 2 "ACCOUNT" "Assets:Cash"); (mktk 13 "WHITESPACE" " "); (mktk 3 "NUMBER" "10"); (mktk 14 "WHITESPACE" " "); (mktk 4 "CURRENCY" "CAD"); (mktk 15 "WHITESPACE" " "); (mktk 5 "AT" "@"); (mktk 8 "WHITESPACE" " "); (mktk 6 "NUMBER" "5"); (mktk 9 "WHITESPACE" " "); (mktk 7 "CURRENCY" "USD"); (mktk 10 "INLINE_COMMENT" ";c"); (mktk 11 "EOL" ""); (mktk 12 "PLACEHOLDER" "")] [("_leading_comment", SOpt None); ("_indent", SReq (Leaf (mktk 1 "INDENT" "    "))); ("_flag", SOpt None); ("_account", SReq (Leaf (mktk 2 "ACCOUNT" "Assets:Cash"))); ("_number", SOpt (Some (Tree "NumberExpr" 0 [(mktk 3 "NUMBER" "10")] [("_number_add_expr", SReq (Tree "NumberAddExpr" 0 [(mktk 3 "NUMBER" "10")] [("seq", SSeq [(Tree "NumberMulExpr" 0 [(mktk 3 "NUMBER" "10")] [("seq", SSeq [(Leaf (mktk 3 "NUMBER" "10"))])] [])])] []))] []))); ("_currency", SOpt (Some (Leaf (mktk 4 "CURRENCY" "CAD")))); ("_cost", SOpt None); ("_price", SOpt (Some (Tree "UnitPrice" 0 [(mktk 5 "AT" "@"); (mktk 8 "WHITESPACE" " "); (mktk 6 "NUMBER" "5"); (mktk 9 "WHITESPACE" " "); (mktk 7 "CURRENCY" "USD")] [("_label", SReq (Leaf (mktk 5 "AT" "@"))); ("_number", SOpt (Some (Tree "NumberExpr" 0 [(mktk 6 "NUMBER" "5")] [("_number_add_expr", SReq (Tree "NumberAddExpr" 0 [(mktk 6 "NUMBER" "5")] [("seq", SSeq [(Tree "NumberMulExpr" 0 [(mktk 6 "NUMBER" "5")] [("seq", SSeq [(Leaf (mktk 6 "NUMBER" "5"))])] [])])] []))] []))); ("_currency", SOpt (Some (Leaf (mktk 7 "CURRENCY" "USD"))))] []))); ("_inline_comment", SOpt (Some (Leaf (mktk 10 "INLINE_COMMENT" ";c")))); ("_eol", SReq (Leaf (mktk 11 "EOL" ""))); ("_meta", SRep 0 [(mktk 12 "PLACEHOLDER" "")] (mktk 12 "PLACEHOLDER" "") []); ("_trailing_comment", SOpt None)] [("indent_by", "    ")]).
+Lemma ex_regap_hyps :
+  hwf_b all_classes ex_regap_posting = true
+  /\ map k_text (opt_out all_classes ex_regap_posting [SField "_price"] "_currency") = [" "]
+  /\ match remove_opt all_classes ex_regap_posting [SField "_price"] "_currency" with
+     | Some (x, r) => hwf_b all_classes r = true
+                      /\ map k_text (node_toks r) = ["    "; "Assets:Cash"; " "; "10"; " "; "CAD"; " "; "@"; " "; "5"; " "; ";c"; ""; ""]
+                      /\ map k_text (node_toks x) = ["USD"]
+     | None => False
+     end.
+Proof. vm_compute. auto. Qed.
